@@ -275,14 +275,11 @@ def hostOf (e : Env) : Str :=
     | Option.none => host
 def urlpartsFrom (L : Lib) (e : Env) (fullpath : Str) : Val :=
   .tuple [some (schemeOf e), some (hostOf e), some (L.urlquote fullpath), e.str? cs!"QUERY_STRING", some []]
-def rdUrlparts (cfg : Cfg) (L : Lib) : M Val := cacheIn kUrlparts fun s =>
+def rdUrlparts (cfg : Cfg) (L : Lib) : M Val := cacheIn kUrlparts do
   -- `http`, `host` are computed before `self.fullpath` is read; they do not touch the state
-  match rdFullpath cfg L s with
-  | (.error e, s') => (.error e, s')
-  | (.ok fp, s') =>
-    match asStr fp with
-    | .error e => (.error e, s')
-    | .ok fp => (.ok (urlpartsFrom L s'.env fp), s')
+  let fp ← rdFullpath cfg L
+  let fp ← liftE (asStr fp)
+  fun s => (.ok (urlpartsFrom L s.env fp), s)
 
 /-- `url`: `self.urlparts.geturl()` -/
 def urlFrom (L : Lib) : Val → Except Exc Val
@@ -460,16 +457,10 @@ def bodyStringFrom (cfg : Cfg) (sk : Sink) (cl : Int) : Except Exc Bytes :=
 /-- `_get_body_string`: `self._body.seek(0); read = self._body.read; … content_length = self.content_length` -/
 def getBodyString (cfg : Cfg) : M Bytes := do
   let b ← rdBody cfg
-  let (sk, _) ← liftE (asBody b)
+  let bd ← liftE (asBody b)
   let cl ← rdContentLength
   let cl ← liftE (asInt cl)
-  liftE (bodyStringFrom cfg sk cl)
-
-/-- `body`: `ret = self._body; ret.seek(0); return ret`, read to the end by the handler -/
-def rdBodyBytes (cfg : Cfg) : M Bytes := do
-  let b ← rdBody cfg
-  let (sk, _) ← liftE (asBody b)
-  pure sk.body
+  liftE (bodyStringFrom cfg bd.1 cl)
 
 def asStrs : Val → Except Exc (List Str)
   | .strs l => .ok l
@@ -516,11 +507,10 @@ def postOfUrlencoded (b : Bytes) : Except Exc FD :=
 /-- `_raise_parsing_error(err)` -/
 def parsingError (cfg : Cfg) (e : Exc) : Exc := raiseParsingError cfg.errorsMap e
 
-/-- `POST`
+/-- `POST` (since 9db424c `forms` / `files` are published only when the whole body was processed)
 ```
 env = self.environ
-files = env['ombott.request.files'] = self._forms_factory()
-post = self._forms_factory()
+files = self._forms_factory(); post = self._forms_factory()
 ctype = self.content_type
 if not ctype.startswith('multipart/'):
     if ctype.startswith('application/json'):
@@ -530,21 +520,31 @@ if not ctype.startswith('multipart/'):
             post.update(data)
     else:
         parse_qsl(touni(self._get_body_string(), 'latin1'), setitem=post.__setitem__)
-    env['ombott.request.forms'] = post
+    env['ombott.request.files'] = files; env['ombott.request.forms'] = post
     return post
-forms = env['ombott.request.forms'] = self._forms_factory()
+forms = self._forms_factory()
 body = self.body
 markup = body.ombott_markup
 if markup is None: self._raise(BodyParsingError('multipart boundary not found'), RequestError)
 elif markup.error is not None: self._raise_parsing_error(markup.error)
 try: self._collect_multipart(body, markup, post, forms, files)
 except (RequestError, ValueError, KeyError, RuntimeError) as err: self._raise_parsing_error(err)
+env['ombott.request.files'] = files; env['ombott.request.forms'] = forms
 return post
-```
-`forms` and `files` are the very dictionaries the collector fills: what it put there before an
-exception stays in the environ. -/
-def rdPost (cfg : Cfg) (L : Lib) : M Val := cacheIn kPost do
-  store kFiles (.dict [])
+``` -/
+def collectMultipart (cfg : Cfg) (L : Lib) (sk : Sink) (ctLoad : Str) : Except Exc (FD × FD × FD) :=
+  match (match boundaryOf ctLoad with
+         | Option.none => MpOut.noMarkup
+         | some bnd => L.multipart bnd sk.body cfg.memfile) with
+  | .noMarkup => .error (mapped cfg .bodyParsingError)
+  | .markupError e => .error (parsingError cfg (.py e))
+  | .collected forms files post exc =>
+    match exc with
+    | Option.none => .ok (post, forms, files)
+    | some e => .error (if caughtByPost e then parsingError cfg e else e)
+
+/-- `POST` up to the point where it publishes `forms` / `files`: `(post, forms, files)` -/
+def postCompute (cfg : Cfg) (L : Lib) : M (FD × FD × FD) := do      -- `(post, forms, files)` as they are when `POST` publishes them
   let ct ← rdContentType
   let ct ← liftE (asStr ct)
   if ¬ startsWithS ct cs!"multipart/" then
@@ -555,23 +555,17 @@ def rdPost (cfg : Cfg) (L : Lib) : M Val := cacheIn kPost do
       else do
         let b ← getBodyString cfg
         liftE (postOfUrlencoded b)
-    store kForms (.dict post)
-    pure (.dict post)
+    pure (post, post, [])
   else
-    store kForms (.dict [])
-    let b ← rdBody cfg
-    let (sk, ctLoad) ← liftE (asBody b)
-    match (match boundaryOf ctLoad with
-           | Option.none => MpOut.noMarkup
-           | some bnd => L.multipart bnd sk.body cfg.memfile) with
-    | .noMarkup => M.fail (mapped cfg .bodyParsingError)
-    | .markupError e => M.fail (parsingError cfg (.py e))
-    | .collected forms files post exc =>
-      store kForms (.dict forms)
-      store kFiles (.dict files)
-      match exc with
-      | Option.none => pure (.dict post)
-      | some e => M.fail (if caughtByPost e then parsingError cfg e else e)
+    let b ← rdBody cfg                        -- `body = self.body` (the markup was built when the body was buffered)
+    let bd ← liftE (asBody b)
+    liftE (collectMultipart cfg L bd.1 bd.2)
+
+def rdPost (cfg : Cfg) (L : Lib) : M Val := cacheIn kPost do
+  let t ← postCompute cfg L
+  store kFiles (.dict t.2.2)
+  store kForms (.dict t.2.1)
+  pure (.dict t.1)
 
 /-- `return self.environ[key]` -/
 def envItem (k : Key) : M Val := fun s =>
